@@ -17,6 +17,16 @@ sys.path.insert(0, os.path.join(vlib.ROOT, 'translator'))
 import units  # noqa: E402
 
 LEVEL = 'proof'
+META = {
+    'text': 'Coq theorems (Props/C12.v) about the Gallina text regenerated from tlslite/utils/constanttime.py on every run: '
+            'the constant-time helpers equal the plain comparisons on the whole 32-bit range, and the combined check equals '
+            'the direct specification well_formed for every body, MAC oracle, sequence number, type and version. '
+            'The generated model, the Coq spec and the Python function are evaluated on the same cases (vm_compute).',
+    'note': 'Trusted: Coq kernel + vm_compute; translator/pylite.py (validated by evaluation against the Python function); '
+            'hmac objects behave as a function of the concatenated input (oracle); bodies < 65536 bytes; '
+            'Spec/CbcCheck.v as the reading of the RFC.',
+    'technique': 'Rocq/Coq proof over translator-regenerated model + vm_compute correspondence',
+}
 VERSIONS = [(3, 0), (3, 1), (3, 2), (3, 3)]
 ALGS = [('md5', 16, 64), ('sha1', 20, 64), ('sha256', 32, 64), ('sha384', 48, 128)]
 EXC = {'IndexError': 1, 'ValueError': 2, 'AssertionError': 3, 'AttributeError': 4, 'TypeError': 5,
